@@ -264,10 +264,11 @@ var configEvents = []string{"setmin:0", "setmin:999", "setmin:1000", "setmin:100
 	"setmap:1", "setmap:3", "setmap:5"}
 
 // event alphabet of the configuration exploration (thorough tier)
-var configMenu = append([]string{"pay1", "pay3", "pay2same", "spendOldest", "spendAll", "reorgEmpty", "disable", "enable"}, configEvents...)
+var configMenu = append([]string{"pay1", "pay3", "pay2same", "payzero", "payedge", "spendOldest", "spendNewest", "spendAll", "reorgEmpty", "disable", "enable"}, configEvents...)
 
 // reduced alphabet for the quick tier: pay3 alone creates outputs of 999, 1000 and 150000,
-// which the thresholds 0 / 999 / 1000 / 1001 / 100001 all tell apart
+// which the thresholds 0 / 999 / 1000 / 1001 / 100001 all tell apart (the zero-value and
+// at-minimum payments payzero / payedge are in the thorough alphabet and in the scripted histories)
 var configMenuQuick = []string{"pay3", "spendOldest", "spendAll", "reorgEmpty", "disable", "enable",
 	"setmin:0", "setmin:999", "setmin:1000", "setmin:1001", "setmin:100001", "setmap:1", "setmap:3", "setmap:5"}
 
@@ -496,6 +497,10 @@ func (w *world) payTxs(kind string, u refchain.UTXO) []*reftx.Tx {
 			w.mkTx(u, []refchain.Outpoint{w.fund()}, []reftx.Out{w.xo(minVal), o1(1e8 - minVal)}),
 			w.mkTx(u, []refchain.Outpoint{w.fund()}, []reftx.Out{w.xo(minVal - 1), o1(1e8 - minVal + 1)}),
 		}
+	case "payzero": // a ZERO-value output and one of 100000 to X in one transaction (indexed only when the minimum is 0)
+		return []*reftx.Tx{w.mkTx(u, []refchain.Outpoint{w.fund()}, []reftx.Out{w.xo(0), o1(1e8 - 100000), w.xo(100000)})}
+	case "payedge": // outputs exactly at the configurable minimums 1001 and 100001
+		return []*reftx.Tx{w.mkTx(u, []refchain.Outpoint{w.fund()}, []reftx.Out{w.xo(1001), o1(1e8 - 101002), w.xo(100001)})}
 	case "pay2same": // several outputs of ONE transaction to X (one of them below the minimum)
 		return []*reftx.Tx{w.mkTx(u, []refchain.Outpoint{w.fund()}, []reftx.Out{w.xo(70000), o1(1e8 - 72000), w.xo(minVal - 1), w.xo(minVal)})}
 	}
@@ -561,7 +566,7 @@ func (w *world) event(name string) {
 		return
 	}
 	switch name {
-	case "pay1", "pay3", "pay2same":
+	case "pay1", "pay3", "pay2same", "payzero", "payedge":
 		w.connect(name, w.payTxs(name, u))
 	case "spendOldest":
 		w.connect(name, []*reftx.Tx{w.mkTx(u, ops(coins[:1]), spendOuts(coins[:1]))})
@@ -1340,6 +1345,108 @@ func (x *explorer) bfs(rn run) {
 	x.mu.Unlock()
 }
 
+// Scripted histories (depth instead of breadth): for every minimum value of the alphabet
+// (incl. 0) and UseMapCnt 1 / 3 / 5 (map form from the first output / default / list form up to
+// four outputs), on two focus types: zero-value outputs and outputs exactly at the configurable
+// minimums paid to an address that is already in use, then the OTHER outputs of that address are
+// spent one by one, everything is spent, a spend is undone by a reorganisation, and the index is
+// built over the populated set. Each history runs once in a fresh worker, same oracle.
+type script struct {
+	focus  int
+	events []string
+}
+
+func scripts() (l []script) {
+	for _, focus := range []int{0, 3} { // P2PKH, P2WSH
+		for _, v := range []int{0, 999, 1000, 1001, 100000, 100001} {
+			for _, m := range []int{1, 3, 5} {
+				cfg := []string{"disable"}
+				if v != minVal {
+					cfg = append(cfg, fmt.Sprint("setmin:", v))
+				}
+				if m != useMapCnt {
+					cfg = append(cfg, fmt.Sprint("setmap:", m))
+				}
+				cfg = append(cfg, "enable")
+				cat := func(a []string, b ...string) []string { return append(append([]string{}, a...), b...) }
+				l = append(l,
+					script{focus, cat(cfg, "payzero", "spendNewest", "reorgEmpty", "spendNewest", "spendAll")},
+					script{focus, cat(cfg, "payzero", "payedge", "spendNewest", "spendNewest", "spendNewest", "pay1", "spendAll")},
+					script{focus, cat(cfg, "pay3", "payzero", "spendOldest", "spendNewest", "spendAll")},
+					script{focus, cat(cfg, "payedge", "payzero", "spendOldest", "spendOldest", "spendOldest", "reorg2")},
+					script{focus, cat(append([]string{"payzero", "payedge"}, cfg...), "spendNewest", "spendNewest", "spendNewest", "spendAll")},
+					script{focus, cat(cfg, "payzero", "saveload", "spendNewest", "disable", "enable")},
+				)
+			}
+		}
+	}
+	return
+}
+
+// runScripts: the scripted histories run first and are not subject to the wall-clock budget.
+func (x *explorer) runScripts(l []script) {
+	res := make([]*Result, len(l))
+	menu := append(append(append([]string{}, allEvents...), "payzero", "payedge"), configEvents...)
+	var wg sync.WaitGroup
+	for i := range l {
+		x.sem <- struct{}{}
+		wg.Add(1)
+		go func(i int) {
+			defer wg.Done()
+			defer func() { <-x.sem }()
+			res[i] = x.exec(run{focus: l[i].focus, menu: menu}, l[i].events)
+		}(i)
+	}
+	wg.Wait()
+	seen := map[string]bool{}
+	pf := map[string]int{}
+	for i, sc := range l {
+		t := res[i]
+		faddr := addrs[sc.focus].Name
+		pf["histories"]++
+		x.mu.Lock()
+		x.transitions += len(sc.events)
+		for _, e := range sc.events {
+			x.perEvent[e]++
+		}
+		x.oracles += t.Oracles
+		x.nontriv += t.Nontriv
+		x.reorgs += t.Reorgs
+		if t.MapRep {
+			x.mapRep++
+		}
+		x.mu.Unlock()
+		switch {
+		case t.Harness != "":
+			x.mu.Lock()
+			x.harness = append(x.harness, fmt.Sprintf("scripted %s %v: %s", faddr, sc.events, t.Harness))
+			x.mu.Unlock()
+		case t.Key != "":
+			ok := true
+			for k := 0; k < 2; k++ {
+				if again := x.run(run{focus: sc.focus, menu: menu}, sc.events); again.Key != t.Key {
+					ok = false
+				}
+			}
+			x.mu.Lock()
+			if ok {
+				x.confirmed++
+				x.r.Report(t.Key, t.What, map[string]interface{}{"focus": faddr, "run": "scripted", "events": sc.events, "trace": t.Trace})
+			} else {
+				x.r.Unrepro = append(x.r.Unrepro, fmt.Sprintf("scripted %s %v: %s", faddr, sc.events, t.Key))
+			}
+			x.mu.Unlock()
+		default:
+			seen[faddr+"|"+t.StateKey] = true
+		}
+	}
+	pf["states"] = len(seen)
+	x.mu.Lock()
+	x.states += len(seen)
+	x.perFocus["scripted"] = pf
+	x.mu.Unlock()
+}
+
 func main() {
 	for _, a := range os.Args[1:] {
 		if a == "--worker" || a == "-worker" {
@@ -1398,6 +1505,9 @@ func main() {
 	if b := os.Getenv("C17_BUDGET"); b != "" {
 		r.Budget, _ = time.ParseDuration(b)
 	}
+	if f := os.Getenv("C17_FOCUS"); f == "" || f == "scripted" {
+		x.runScripts(scripts())
+	}
 	var wg sync.WaitGroup
 	for focus := range addrs {
 		fname := addrs[focus].Name
@@ -1453,7 +1563,7 @@ func main() {
 		"prefix_dirs_rebuilt":               x.rebuilt,
 		"worker_cpu_s":                      float64(atomic.LoadInt64(&workerCPU)/1e7) / 100,
 		"samples":                           x.samples.L,
-		"rule": "BFS over event histories per focus address type (P2PKH, P2SH, P2WPKH, P2WSH, P2TR, non-standard; all other types present as static background outputs) plus one configuration exploration (config/P2PKH: block/reorg events combined with setmin:<v> / setmap:<v> while the index is off, then LoadBalancesFromUtxo over the populated set; oracle = projection under the minimum in force); every history runs in a fresh worker process on a copy of a 105-block chain; " +
+		"rule": "BFS over event histories per focus address type (P2PKH, P2SH, P2WPKH, P2WSH, P2TR, non-standard; all other types present as static background outputs) plus scripted histories (zero-value and at-minimum outputs to a used address under every minimum 0/999/1000/1001/100000/100001 and UseMapCnt 1/3/5, then the other outputs spent one by one, reorganisations, index built over the populated set; run first, not subject to the budget) and one configuration exploration (config/P2PKH: block/reorg events combined with setmin:<v> / setmap:<v> while the index is off, then LoadBalancesFromUtxo over the populated set; oracle = projection under the minimum in force); every history runs in a fresh worker process on a copy of a 105-block chain; " +
 			"oracle after every delivered block / wallet switch for every address of the alphabet; state key = (index on/off, snapshot saved for tip, observed list/map representation, X's outputs in creation order with age class/tx index/vout/value, X-outputs spent by the two topmost blocks); " +
 			"type-symmetry reduction: full depth for the deep focus types, reduced depth for the others (per_focus.depth_target)",
 	}, []string{
@@ -1489,7 +1599,7 @@ func replay(x *explorer, file string) int {
 	if focus < 0 {
 		ev.HarnessError("unknown focus %q", rec.Replay.Focus)
 	}
-	res := x.run(run{focus: focus, menu: append(append([]string{}, allEvents...), configEvents...)}, rec.Replay.Events)
+	res := x.run(run{focus: focus, menu: append(append(append([]string{}, allEvents...), "payzero", "payedge"), configEvents...)}, rec.Replay.Events)
 	for _, s := range res.Trace {
 		fmt.Fprintf(ev.Out, "  %s -> %s\n", s.Ev, s.Result)
 	}
